@@ -215,9 +215,17 @@ func (s *c03Store) Set(ctx context.Context, id string, b []byte) error {
 // Eager (Workflow) run interrupted while a parallel node is still running: the drain after the interrupt collects
 // late completions; whatever the completion order, the resumed run executes every node exactly once and returns
 // the schedule-independent result.
-func c03Interrupt(after bool) {
+func c03Interrupt(after bool) { c03InterruptL(after, false) }
+
+// three: a third lane e -> f, explored with one deviation from the deterministic schedule (two pre-emptions do not
+// finish for three lanes)
+func c03InterruptL(after bool, three bool) {
 	ctx := context.Background()
-	vcfg("preempt", 2)
+	if three {
+		vcfg("delaybound", 1+vtier())
+	} else {
+		vcfg("preempt", 2)
+	}
 	counts := map[string]int{}
 	body := func(key string) *Lambda {
 		return InvokableLambda(func(ctx context.Context, in map[string]any) (map[string]any, error) {
@@ -239,6 +247,11 @@ func c03Interrupt(after bool) {
 	e := wf.End()
 	e.AddInput("c", ToField("c"))
 	e.AddInput("d", ToField("d"))
+	if three {
+		wf.AddLambdaNode("e", body("e")).AddInput(START)
+		wf.AddLambdaNode("f", body("f")).AddInput("e")
+		e.AddInput("f", ToField("f"))
+	}
 	store := &c03Store{m: map[string][]byte{}}
 	opts := []GraphCompileOption{WithCheckPointStore(store)}
 	if after {
@@ -268,15 +281,23 @@ func c03Interrupt(after bool) {
 		"c": map[string]any{"c": vsymUF("f_c", vFold(fa))},
 		"d": map[string]any{"d": vsymUF("f_d", vFold(fb))},
 	}
+	nodes := []string{"a", "b", "c", "d"}
+	if three {
+		fe := map[string]any{"e": vsymUF("f_e", vFold(in))}
+		want["f"] = map[string]any{"f": vsymUF("f_f", vFold(fe))}
+		nodes = append(nodes, "e", "f")
+	}
 	vassert(vMapEq(out, want), "the result after resume does not depend on which parallel node was still running when the interrupt was taken")
-	for _, k := range []string{"a", "b", "c", "d"} {
+	for _, k := range nodes {
 		vassert(counts[k] == 1, "node "+k+" executed exactly once over interrupt and resume")
 	}
 	vquiesce()
 }
 
-func VerifC03InterruptAfter()  { c03Interrupt(true) }
-func VerifC03InterruptBefore() { c03Interrupt(false) }
+func VerifC03InterruptAfter()   { c03Interrupt(true) }
+func VerifC03InterruptBefore()  { c03Interrupt(false) }
+func VerifC03InterruptAfter3()  { c03InterruptL(true, true) }
+func VerifC03InterruptBefore3() { c03InterruptL(false, true) }
 
 type c03State struct{ V int }
 
